@@ -148,7 +148,17 @@ def _correspondence_once(ctx, rep=0):
                 ctx.case(n=1, branch='disagree')
                 continue
             cands = [my[i]] + (alts[i] if i < len(alts) else [])
-            ok = any(abs(c - yl[i]) <= tol(yl[i], fam, inverse) or (math.isnan(c) and math.isnan(yl[i])) for c in cands)
+            # conditioning: one ulp of the input moves the output by ulp * |dy/dx| = ulp * exp(logabsdet) (the model reports it)
+            kap = 1e-15 * math.exp(min(60.0, abs(mld[i]))) * (1.0 + abs(xl[i])) if math.isfinite(mld[i]) else float('inf')
+            if inverse and kd.startswith('knot'):
+                # at a knot the two sides may pick neighbouring bins (inputs within an ulp of the knot); the inverse is only as
+                # continuous there as the flatter neighbour allows: use the worst conditioning among the adjacent atoms
+                for jn in range(max(0, i - 3), min(n, i + 4)):
+                    if math.isfinite(mld[jn]):
+                        kap = max(kap, 1e-15 * math.exp(min(60.0, abs(mld[jn]))) * (1.0 + abs(xl[i])))
+                    else:
+                        kap = float('inf')
+            ok = any(abs(c - yl[i]) <= tol(yl[i], fam, inverse) + kap or (math.isnan(c) and math.isnan(yl[i])) for c in cands)
             nontrivial = abs(yl[i] - xl[i]) > 1e-12
             ctx.case(key=(fam, tails, K, regime, kd, inverse, extra_items), branch='%s/%s/%s' % (fam, 'tails' if tails else 'box', kd),
                      nontrivial=nontrivial,
